@@ -39,6 +39,14 @@ theorem gen_onset (info : Int → Info) (wallOf : Int → Int) (H first last : I
   obtain ⟨h3, h4, h5, h6⟩ := segsOf_ok info wallOf last Ts first none g hg
   exact ⟨h1, h2, h3, h4, h5, h6⟩
 
+/-- The applicability check the driver runs on the table of every real zone is sound: when
+    `chainOK` answers true for an ascending table, the zone has a `Chain` in the sense of
+    `gen_onset` / `gen_faithful_partial` (so the zones the theorems cover are computed, not assumed). -/
+theorem chainOK_sound (Z : Zone) (H first last : Int) (hs : sortedRows Z.rows = true)
+    (hc : chainOK Z.init Z.rows first last = true) (hH : last + maxStep ≤ H) :
+    ∃ Ts, Chain Z.info H last first Ts :=
+  chainOK_sound_aux Z.info H first last hH Z.rows Z.init hs (fun _ _ => rfl) hc
+
 /-- the generated component, read by RFC 5545 onset rules at `t`, says `i` -/
 def Reads (gen : List GenObs) (t : Int) (i : Info) : Prop :=
   ∃ b, specAt (gen.map toObs) t = some b ∧ b.2.offTo = i.off ∧ b.2.name = i.name ∧ b.2.isDst = !i.isStd
